@@ -38,7 +38,13 @@ TRUSTED_BASE = [
     'GlobalTraceFunc.global_trace_func, WithContext._local_trace, the thread guard of sys_trace; trusted to emit what the source says.  '
     'Interpreter coq/theories/Bdb/Interp.v (Python object model for frames/None/ints, pluggy call order, pdb.py between user_* and the '
     'set_* command are given their meaning by hand there); Bdb/Tie.v proves interpretation = Bdb/Model.v for all states and events '
-    '(C05_tie_*)',
+    '(C05_tie_*).  Pins of translate/bdb_funs.py that no theorem speaks about (the translator fails closed): shapes of factory._factory / '
+    'PdbInstanceFactory, LocalTraceFunc / local_.Factory, WithContext._global_trace/_create_local_trace, TraceFuncCreator, the sibling '
+    'methods of the filter classes (init, context, on_cmdloop, __init__ values), the sys_trace call in runner.py, firstresult in spec.py, '
+    'imports, module/class bodies, bases, decorators, defaults; CustomizedPdb may define only __init__, cmdloop, _cmdloop, set_continue.  '
+    'Ignored positions: docstrings, pass, print/logger calls and log texts without Call/NamedExpr/Await/Yield; asserts are never ignored.  '
+    'No exceptions in the interpreter: BdbQuit and failing asserts are stuck states (proved unreachable); the try/finally of '
+    'Bdb.dispatch_return has its meaning for normal completion only (an exception out of the command loop is outside this tie)',
     'hand-written model coq/theories/Bdb/Model.v of bdb.Bdb / pdb.Pdb 3.12.1 stop logic, CustomizedPdb, WithContext, pluggy firstresult '
     'LIFO/trylast call order, FilerByModule.filter, CPython trace_trampoline (None leaves f_trace); compared with the real code on every run',
     'reference recorder harness/reference.py (raw sys.settrace stream per thread/task) and harness/child.py',
